@@ -22,9 +22,11 @@ TEXT = {
     "C18.stream": "BitWriteStreamT::write and BitReadStreamT::read share the cursor atoms (byteIndex = _cursor >> 3, start = _cursor & 7, chunk = min(8 - start, "
                   "remaining), _cursor += chunk, remaining -= chunk); the written byte is |= value << start, the read chunk is (byte >> start) & ((1 << chunk) - 1) "
                   "placed at the running item offset; no local derived from _cursor is narrower than _cursor",
-    "C18.compare": "StreamBufferT::operator== / != compare all BYTE_COUNT bytes",
+    "C18.compare": "StreamBufferT::operator== / != compare all BYTE_COUNT bytes; StreamBufferT::clear() zeroes all of them",
+    "C18.helpers": "contain() (round-up division: the unit count of every bit array and view), bitContain(), min / max return the exact value for every "
+                   "boundary argument of the types they are instantiated with (static_assert witness decided by clang -fsyntax-only)",
 }
-MIN_INSTANCES = {"C18.single-bit": 14, "C18.whole": 5, "C18.views": 2, "C18.stream": 2, "C18.compare": 2}
+MIN_INSTANCES = {"C18.helpers": 3, "C18.single-bit": 14, "C18.whole": 5, "C18.views": 2, "C18.stream": 2, "C18.compare": 2}
 
 
 def declare(ctx):
@@ -184,6 +186,7 @@ def check(ctx, F):
                 ctx.violation("C18.stream", site, "BitWriteStreamT::BitWriteStreamT (%s)" % F.floc(fid),
                               "write() ORs chunks into the buffer but the constructor does not clear it on every path: values read back merge with stale bits", {})
     check_compare(ctx, F)
+    check_buffer_clear(ctx, F)
 
 
 SINGLE_WANT = {
@@ -568,6 +571,23 @@ def check_stream(ctx, F):
                               "writer and reader disagree on %s: %s vs %s" % (a, forms["write"].get(a), forms["read"].get(a)), {})
 
 
+def check_buffer_clear(ctx, F, rule="C18.compare"):
+    """StreamBufferT::clear() zeroes all BYTE_COUNT bytes: fill(_data, 0) over the whole array, or a loop over every byte"""
+    for fid, b in pick(F, "StreamBufferT", "clear"):
+        site = "StreamBufferT::clear"
+        calls = [re.sub(r"\bthis\.", "", px(x, {})) for x in walk(b["body"]) if x.get("k") == "call"]       # (unresolved in the uninstantiated pattern)
+        ok = any(re.match(r"^(::)?(hfsm2::)?(detail::)?fill\(_data,(0|0x0)\)$", c) for c in calls)
+        nf = None
+        if not ok:
+            nf = unit_loop_nf(F, b)
+            ok = _nf_matches(F, nf, {"bound": "BYTE_COUNT", "effects": [["_data[i]=0"]], "hits": [], "tail": None})
+        ctx.instance(rule, site, {"function": site, "loc": F.floc(fid), "calls": calls, "normal_form": _nf_show(nf) if nf else None})
+        if not ok:
+            ctx.violation(rule, site, "%s (%s)" % (site, F.floc(fid)),
+                          "StreamBufferT::clear() is %s, expected fill(_data, 0) or a loop over all BYTE_COUNT bytes: a partially used last byte keeps stale bits, "
+                          "which the OR-ing writer merges into the next image" % (_nf_show(nf) if nf else calls), {})
+
+
 def check_compare(ctx, F):
     for name, hitv in (("operator==", False), ("operator!=", True)):
         want = {"bound": "BYTE_COUNT", "effects": [[]], "hits": [(N(A("_data[i]==buffer._data[i]")), hitv)], "tail": ("const", not hitv)}
@@ -578,3 +598,9 @@ def check_compare(ctx, F):
             if not _nf_matches(F, nf, want):
                 ctx.violation("C18.compare", site, "%s (%s)" % (site, F.floc(fid)),
                               "%s has the normal form %s, expected a comparison of all BYTE_COUNT bytes: %s" % (site, _nf_show(nf), _nf_show_want(want)), {})
+
+
+def final(ctx):
+    from . import helpwit
+    helpwit.run(ctx, "C18.helpers")
+
